@@ -640,17 +640,26 @@ def install(tap, run):
                 run.count("note:cv.split_called_more_than_once")
             feat = calls[-1]["X"]
             want = np.transpose([ds.coordinates[0], ds.coordinates[1]])
+            run.evaluated("cv_sees_rows_in_split_order")
             if feat.shape != want.shape or not np.array_equal(feat, want):
                 permuted = feat.shape == want.shape and np.array_equal(feat[np.lexsort(feat.T)], want[np.lexsort(want.T)])
-                if permuted:
-                    run.evaluated("cv_sees_rows_in_split_order")
-                    run.violation("cv_sees_rows_in_split_order", "the cross-validator was shown the points in another order than the C ravel "
-                                  "its split indices are applied to (layout-dependent flattening)", {"X": feat, "expected": want,
-                                  "coordinates": list(a["coordinates"])}, key="cv-feature-order")
+                worst = float(np.max(np.abs(feat - want))) if feat.shape == want.shape else None
+                run.violation("cv_sees_rows_in_split_order",
+                              "the features handed to the cross-validator are not the (easting, northing) coordinates as float64: %s"
+                              % ("same points in another order than the C ravel the split indices are applied to" if permuted else
+                                 "shape %s instead of %s" % (feat.shape, want.shape) if worst is None else "values differ by up to %.3g" % worst),
+                              {"X": feat, "expected": want, "coordinates": list(a["coordinates"])}, key="cv-feature-order" if permuted else "cv-features")
+                return
+            # the splits used are those the cross-validator yields for the float64 coordinates (replayed where that is well defined)
+            replayed = cv.replay(want)
+            if replayed is not None:
+                run.evaluated("splits_are_those_of_the_float64_coordinates")
+                got = calls[-1]["splits"]
+                if len(got) != len(replayed) or any(not (np.array_equal(x[0], y[0]) and np.array_equal(x[1], y[1])) for x, y in zip(got, replayed)):
+                    run.violation("splits_are_those_of_the_float64_coordinates", "the (train, test) rows used differ from what the cross-validator yields for "
+                                  "X = column_stack(easting, northing) in float64", {"used": [[x[0], x[1]] for x in got], "replayed": [[y[0], y[1]] for y in replayed],
+                                                                                    "coordinates": list(ds.coordinates)}, key="cv-replay")
                     return
-                run.count("note:cv_given_another_feature_matrix")  # which columns the splitter sees is C11's business
-            else:
-                run.evaluated("cv_sees_rows_in_split_order")
             splits = calls[-1]["splits"]
         else:
             splits = foreign_splits
